@@ -474,6 +474,21 @@ def run(prog, rep):
     if not moved:
         rep.violation('R6', loc(adm.module, rw), 'ABCADMPropertyGraph.rewrite_delegations', 'entry not moved under the new key',
                       're-keying must move the existing entry (pop old key, store under the new key) so that only the key changes')
+    # the key the entry is moved to is the id the entry has just been given
+    rwenv = local_env(rw)
+    id_assigns = [n for n in ast.walk(rw) if isinstance(n, ast.Assign) and len(n.targets) == 1 and isinstance(n.targets[0], ast.Attribute) and
+                  n.targets[0].attr == 'delegation_id']
+    for mv in moved:
+        key = mv.targets[0].slice
+        same = isinstance(key, ast.Attribute) and key.attr == 'delegation_id'
+        if not same and len(id_assigns) == 1:
+            same = ctext(expand(key, rwenv)) == ctext(expand(id_assigns[0].value, rwenv))
+        rep.instance('R6', f'rewrite_delegations: entry moved under {norm(key, 50)}; same as the id given to the entry: {same}')
+        if not same:
+            rep.violation('R6', loc(adm.module, mv), 'ABCADMPropertyGraph.rewrite_delegations', f'entry moved under {norm(key, 50)}',
+                          'the entry is given one id (the real ADM id when there is one) but filed in the table under another: the table key '
+                          'and the id inside the entry disagree, the encoder writes the table key, and the delegation is keyed by the wrong model')
+
     def id_sink(st):
         if isinstance(st, ast.Assign) and len(st.targets) == 1 and isinstance(st.targets[0], ast.Attribute) and st.targets[0].attr == 'delegation_id':
             return st.value
@@ -496,7 +511,7 @@ def run(prog, rep):
     decode = [c for c in ast.walk(rw) if isinstance(c, ast.Call) and call_name(c) == 'from_json' and 'Delegations' in ast.unparse(c.func)]
     renv = local_env(rw)
     for l in [n for n in ast.walk(rw) if isinstance(n, ast.For)]:
-        it = l.iter
+        it = expand(l.iter, renv)
         items = None
         try:
             if isinstance(it, ast.Call) and isinstance(it.func, ast.Attribute) and it.func.attr in ('items', 'keys') and not it.args:
@@ -507,6 +522,8 @@ def run(prog, rep):
                 seq = foldr(it)
                 if isinstance(seq, dict):
                     items = [(k_, None) for k_ in seq]
+                elif isinstance(seq, (list, tuple)) and seq and all(isinstance(e_, (list, tuple)) and len(e_) == 2 for e_ in seq):
+                    items = [(e_[0], e_[1]) for e_ in seq]       # rows of (property, type)
                 elif isinstance(seq, (list, tuple)):
                     items = [(k_, None) for k_ in seq]
         except Exception:
